@@ -48,6 +48,8 @@ def run(tier, seed, replay=None):
     rng = random.Random(seed)
     V = common.Verdict(PID)
     ok_make, obl = proofcheck.obligations(PID, V)
+    import translate
+    tr_cov = translate.obligation(V, PID) if ok_make else {"translated": False}          # rank_chop re-translated from the current source + proof that it equals the model
     dist = {}
     samples = []
     # ---------------- layer 1: rank_chop itself, exact, model over Z
@@ -217,7 +219,7 @@ def run(tier, seed, replay=None):
             else:
                 n_replay_ok += 1
     nviol = V.finish()
-    cov = proofcheck.coverage(PID, obl, evaluations=len(mcases) + n, distinct_nontrivial=len(set(json.dumps(m[:1], default=str) for m in replay_meta)) + len(l1),
+    cov = proofcheck.coverage(PID, obl, translation=tr_cov, evaluations=len(mcases) + n, distinct_nontrivial=len(set(json.dumps(m[:1], default=str) for m in replay_meta)) + len(l1),
         rule=("layer 1: every non-increasing integer vector (entries 0..3, length <= 4 quick / 5 thorough) x eps in 0..5(7), three scalings/dtypes, rank_chop called directly and "
               "compared exactly with the Coq model over Z (ties at the threshold are the bulk of this family); layers 2/3: TT(dense, shape, eps, rmax) on random dense, exactly "
               "low-rank, super-diagonal (every unfolding shares the prescribed spectrum, engineered so each bond sits at the edge of its allowance or exactly at a tie), singleton-"
